@@ -21,7 +21,7 @@ package mqtt
 //@ loop 1: unroll 4
 //@ ensures[C09] (err != nil) == (len(topic) == 0 || len(topic) > 65535 || !utf8ok(arr(topic), off(topic), len(topic)) || hasnul(arr(topic), off(topic), len(topic)) || pubrem(len(topic), len(message), packetID) > 268435455)
 //@ ensures[C09] err != nil ==> (Is(err, errZero) || Is(err, errStringMax) || Is(err, errUTF8) || Is(err, errNull) || Is(err, errPacketMax))
-//@ ensures[C09] err == nil ==> len(r) == 2 && r[1] == message
+//@ ensures[C09] err == nil ==> len(r) == 2 && r[1] == message && fresh(r)
 //@ ensures[C09] err == nil ==> len(r[0]) == 1 + vlen(pubrem(len(topic), len(message), packetID)) + 2 + len(topic) + ite(packetID != 0, 2, 0)
 //@ ensures[C09,C05] err == nil ==> r[0][0] == head
 //@ ensures[C09] err == nil ==> r[0][1] == vbyte(pubrem(len(topic), len(message), packetID), 0)
@@ -75,6 +75,9 @@ package mqtt
 //@ pred writable(c): c.writeSem != nil && cap(c.writeSem) == 1 && c.onlineSig != nil && !closed(c.onlineSig) && cap(c.onlineSig) == 1 && c.ctx != nil && (closed(c.writeSem) ==> len(c.writeSem) == 0)
 //@ pred sigfull(c): len(c.onlineSig) == 1 && qat(c.onlineSig, 0) != nil && len(qat(c.onlineSig, 0)) == 0 && c.offlineSig != nil && !closed(c.offlineSig) && cap(c.offlineSig) == 1 && c.offlineSig != c.onlineSig && len(c.offlineSig) == 1 && qat(c.offlineSig, 0) != nil && len(qat(c.offlineSig, 0)) == 0 && qat(c.offlineSig, 0) != qat(c.onlineSig, 0)
 
+// IsDeny over the package's validation sentinels.
+//@ pred denied(err): Is(err, errZero) || Is(err, errStringMax) || Is(err, errUTF8) || Is(err, errNull) || Is(err, errPacketMax) || Is(err, errSubscribeNone) || Is(err, errUnsubscribeNone)
+
 // Content invariants of the token channels: every sender is obliged to them,
 // every receiver may rely on them.
 //@ chaninv mqtt.Client.writeSem(v): v != nil
@@ -122,6 +125,7 @@ package mqtt
 
 // write: the packet goes to the connection found in the write semaphore, or nowhere.
 //@ func mqtt.(*Client).write -> err
+//@ ensures[C14] err != nil ==> !denied(err)
 //@ ensures !closed(c.onlineSig) && (old(len(c.onlineSig)) == 1 ==> len(c.onlineSig) == 1 && qat(c.onlineSig, 0) == old(qat(c.onlineSig, 0)))
 //@ requires c.writeSem != nil && cap(c.writeSem) == 1 && c.onlineSig != nil && !closed(c.onlineSig) && cap(c.onlineSig) == 1 && c.ctx != nil
 //@ requires closed(c.writeSem) ==> len(c.writeSem) == 0
@@ -136,6 +140,7 @@ package mqtt
 
 // writeBuffers: the flattened packet goes to the connection found in the write semaphore, or nowhere.
 //@ func mqtt.(*Client).writeBuffers -> err
+//@ ensures[C14] err != nil ==> !denied(err)
 //@ ensures !closed(c.onlineSig) && (old(len(c.onlineSig)) == 1 ==> len(c.onlineSig) == 1 && qat(c.onlineSig, 0) == old(qat(c.onlineSig, 0)))
 //@ requires c.writeSem != nil && cap(c.writeSem) == 1 && c.onlineSig != nil && !closed(c.onlineSig) && cap(c.onlineSig) == 1 && c.ctx != nil
 //@ requires closed(c.writeSem) ==> len(c.writeSem) == 0
@@ -149,6 +154,7 @@ package mqtt
 
 // writeBuffersNoWait: the flattened packet goes to the connection found in the write semaphore, or nowhere.
 //@ func mqtt.(*Client).writeBuffersNoWait -> err
+//@ ensures[C14] err != nil ==> !denied(err)
 //@ requires c.writeSem != nil && cap(c.writeSem) == 1
 //@ requires closed(c.writeSem) ==> len(c.writeSem) == 0
 //@ modifies wire, wire_len, wclosed, wdl, chanstate(c.writeSem), elems(p)
@@ -307,6 +313,7 @@ package mqtt
 //@ ensures[C08] forall(k, 0, old(wire_len(conn)), wire(conn)[k] == old(wire(conn))[k])
 //@ ensures[C08] forall(i, old(wire_len(conn)), wire_len(conn), wire(conn)[i] == old(flatat(p, i - old(wire_len(conn)))))
 //@ ensures[C08,C14] err == nil ==> wire_len(conn) == old(wire_len(conn)) + old(flatlen(p))
+//@ ensures foreign(err) && !perr(err)
 
 // Stored record layout: packet bytes, 8-byte little-endian sequence number,
 // 4-byte big-endian FNV-1a over both.
@@ -584,6 +591,7 @@ package mqtt
 // applySeqNoAndEnqueue: ErrMax exactly when the queue is full; otherwise the identifier is stamped,
 // the record saved, and only then the exchange enqueued.
 //@ func mqtt.(*Client).applySeqNoAndEnqueue -> done, err
+//@ ensures[C14] err != nil ==> !denied(err)
 //@ reveal flatlen_
 //@ modifies packet[0][len(packet[0])-2], packet[0][len(packet[0])-1], chanstate(out.queue), st_has(c.persistence, packet[0][len(packet[0])-2]*256 + packet[0][len(packet[0])-1] + seqNo % 16384), st_len(c.persistence, packet[0][len(packet[0])-2]*256 + packet[0][len(packet[0])-1] + seqNo % 16384), st_val(c.persistence, packet[0][len(packet[0])-2]*256 + packet[0][len(packet[0])-1] + seqNo % 16384)
 //@ requires c.persistence != nil && out.queue != nil && !closed(out.queue) && len(packet) >= 1 && len(packet[0]) >= 2
@@ -602,6 +610,8 @@ package mqtt
 // with a backlog nothing is written, so a later submission cannot overtake an unsent one.
 //@ chaninv mqtt.outbound.seqSem(v): true
 //@ func mqtt.(*Client).submitPersisted -> exchange, err
+//@ ensures[C14] err != nil ==> !denied(err)
+//@ modifies chanstate(out.seqSem), chanstate(out.queue), st_has, st_len, st_val, packet[0][len(packet[0])-2], packet[0][len(packet[0])-1], elems(packet), wire, wire_len, wclosed, wdl, chanstate(c.writeSem)
 //@ stable queue
 //@ requires c.persistence != nil && out.queue != nil && !closed(out.queue) && out.seqSem != nil && cap(out.seqSem) == 1 && (closed(out.seqSem) ==> len(out.seqSem) == 0)
 //@ requires c.writeSem != nil && cap(c.writeSem) == 1 && (closed(c.writeSem) ==> len(c.writeSem) == 0)
@@ -614,3 +624,75 @@ package mqtt
 //@ ensures[C01,C05] err == nil && old(len(out.seqSem)) == 1 ==> qat(out.seqSem, 0).acceptN == (old(qat(out.seqSem, 0).acceptN) + 1) % 18446744073709551616 && len(out.queue) == old(len(out.queue)) + 1 && exchange != nil
 //@ ensures[C05] err == nil && old(len(out.seqSem)) == 1 && old(qat(out.seqSem, 0).submitN) < old(qat(out.seqSem, 0).acceptN) ==> forall(k, wire_len(k) == old(wire_len(k))) && qat(out.seqSem, 0).submitN == old(qat(out.seqSem, 0).submitN)
 //@ ensures[C14,C17] err != nil && old(len(out.seqSem)) == 1 && !closed(out.seqSem) ==> qat(out.seqSem, 0) == old(qat(out.seqSem, 0))
+
+// newClient: limits normalised into 0..16384, queue capacity = limit, offline start state.
+//@ func mqtt.newClient -> r
+//@ requires config != nil
+//@ ensures[C17] r.AtLeastOnceMax == ite(old(config.AtLeastOnceMax) < 0 || old(config.AtLeastOnceMax) > 16383, 16384, old(config.AtLeastOnceMax)) && cap(r.atLeastOnce.queue) == r.AtLeastOnceMax && len(r.atLeastOnce.queue) == 0
+//@ ensures[C17] r.ExactlyOnceMax == ite(old(config.ExactlyOnceMax) < 0 || old(config.ExactlyOnceMax) > 16383, 16384, old(config.ExactlyOnceMax)) && cap(r.exactlyOnce.queue) == r.ExactlyOnceMax && len(r.exactlyOnce.queue) == 0
+//@ ensures[C17,C02] r.Acked == 0 && r.Received == 0 && r.Completed == 0 && len(r.atLeastOnce.seqSem) == 1 && qat(r.atLeastOnce.seqSem, 0).acceptN == 0 && qat(r.atLeastOnce.seqSem, 0).submitN == 0 && len(r.exactlyOnce.seqSem) == 1 && qat(r.exactlyOnce.seqSem, 0).acceptN == 0 && qat(r.exactlyOnce.seqSem, 0).submitN == 0
+//@ ensures[C18,C12] fresh(r) && r.persistence == p && len(r.connSem) == 1 && qat(r.connSem, 0) == nil && len(r.writeSem) == 1 && qat(r.writeSem, 0) == boxed(connSignal, 0) && r.readConn == nil && r.bufr == nil
+//@ ensures[C12] len(r.onlineSig) == 1 && !closed(qat(r.onlineSig, 0)) && len(r.offlineSig) == 1 && closed(qat(r.offlineSig, 0))
+//@ ensures[C10,C12] rdinv(r) || r.persistence == nil
+//@ ensures r.ReconnectWaitMin >= 0 && r.ReconnectWaitMax >= r.ReconnectWaitMin
+
+// publish (QoS 0): denied arguments leave no trace; success means the whole PUBLISH went to one connection.
+//@ func mqtt.(*Client).publish -> err
+//@ modifies wire, wire_len, wclosed, wdl, chanstate(c.writeSem), chanstate(c.onlineSig)
+//@ requires writable(c)
+//@ ensures[C09,C14] (err != nil && denied(err)) == (len(topic) == 0 || len(topic) > 65535 || !utf8ok(arr(topic), off(topic), len(topic)) || hasnul(arr(topic), off(topic), len(topic)) || pubrem(len(topic), len(message), 0) > 268435455)
+//@ ensures[C09,C14] err != nil && denied(err) ==> forall(k, wire_len(k) == old(wire_len(k))) && len(c.writeSem) == old(len(c.writeSem))
+//@ ensures[C14] err != nil ==> denied(err) || Is(err, ErrSubmit) || Is(err, ErrClosed) || Is(err, ErrDown) || Is(err, ErrCanceled)
+//@ ensures[C14] err != nil && !Is(err, ErrSubmit) ==> forall(k, wire_len(k) == old(wire_len(k)))
+//@ ensures[C09,C08,reveal=flatlen_,reveal=flatat_] err == nil ==> forall(w, w == qat(c.writeSem, 0) ==> wire_len(w) == old(wire_len(w)) + 1 + vlen(pubrem(len(topic), len(message), 0)) + pubrem(len(topic), len(message), 0) && wire(w)[old(wire_len(w))] == head)
+//@ ensures[C14] forall(k, 0, len(message), message[k] == old(message[k]))
+
+//@ func mqtt.(*Client).Publish -> err
+//@ requires writable(c)
+//@ at[C05,C09] call publish#1: assert head == 48
+//@ ensures[C09,C14] (err != nil && denied(err)) == (len(topic) == 0 || len(topic) > 65535 || !utf8ok(arr(topic), off(topic), len(topic)) || hasnul(arr(topic), off(topic), len(topic)) || pubrem(len(topic), len(message), 0) > 268435455)
+//@ ensures[C14] err != nil ==> denied(err) || Is(err, ErrSubmit) || Is(err, ErrClosed) || Is(err, ErrDown) || Is(err, ErrCanceled)
+//@ ensures[C09,C14] err != nil && !Is(err, ErrSubmit) ==> forall(k, wire_len(k) == old(wire_len(k)))
+
+//@ func mqtt.(*Client).PublishRetained -> err
+//@ requires writable(c)
+//@ at[C05,C09] call publish#1: assert head == 49
+//@ ensures[C09,C14] (err != nil && denied(err)) == (len(topic) == 0 || len(topic) > 65535 || !utf8ok(arr(topic), off(topic), len(topic)) || hasnul(arr(topic), off(topic), len(topic)) || pubrem(len(topic), len(message), 0) > 268435455)
+//@ ensures[C14] err != nil ==> denied(err) || Is(err, ErrSubmit) || Is(err, ErrClosed) || Is(err, ErrDown) || Is(err, ErrCanceled)
+//@ ensures[C09,C14] err != nil && !Is(err, ErrSubmit) ==> forall(k, wire_len(k) == old(wire_len(k)))
+
+//@ func mqtt.(*Client).PublishAtLeastOnce -> exchange, err
+//@ requires c.persistence != nil && c.atLeastOnce.queue != nil && !closed(c.atLeastOnce.queue) && c.atLeastOnce.seqSem != nil && cap(c.atLeastOnce.seqSem) == 1 && (closed(c.atLeastOnce.seqSem) ==> len(c.atLeastOnce.seqSem) == 0)
+//@ requires c.writeSem != nil && cap(c.writeSem) == 1 && (closed(c.writeSem) ==> len(c.writeSem) == 0)
+//@ at[C05,C09] call publishPacket#1: assert head == 50 && packetID == 32768
+//@ at[C09,C14] call submitPersisted#1: assert out.queue == c.atLeastOnce.queue && out.seqSem == c.atLeastOnce.seqSem && forall(k, wire_len(k) == old(wire_len(k))) && forall(k, st_has(c.persistence, k) == old(st_has(c.persistence, k))) && len(c.atLeastOnce.queue) == old(len(c.atLeastOnce.queue))
+//@ ensures[C09,C14] (err != nil && denied(err)) ==> exchange == nil && forall(k, wire_len(k) == old(wire_len(k))) && forall(k, st_has(c.persistence, k) == old(st_has(c.persistence, k))) && len(c.atLeastOnce.queue) == old(len(c.atLeastOnce.queue))
+//@ ensures[C09] len(topic) == 0 || len(topic) > 65535 || !utf8ok(arr(topic), off(topic), len(topic)) || hasnul(arr(topic), off(topic), len(topic)) || pubrem(len(topic), len(message), 1) > 268435455 ==> err != nil && denied(err)
+//@ ensures[C14,C17] err != nil ==> exchange == nil && len(c.atLeastOnce.queue) == old(len(c.atLeastOnce.queue)) && forall(k, wire_len(k) == old(wire_len(k)))
+
+//@ func mqtt.(*Client).PublishAtLeastOnceRetained -> exchange, err
+//@ requires c.persistence != nil && c.atLeastOnce.queue != nil && !closed(c.atLeastOnce.queue) && c.atLeastOnce.seqSem != nil && cap(c.atLeastOnce.seqSem) == 1 && (closed(c.atLeastOnce.seqSem) ==> len(c.atLeastOnce.seqSem) == 0)
+//@ requires c.writeSem != nil && cap(c.writeSem) == 1 && (closed(c.writeSem) ==> len(c.writeSem) == 0)
+//@ at[C05,C09] call publishPacket#1: assert head == 51 && packetID == 32768
+//@ at[C09,C14] call submitPersisted#1: assert out.queue == c.atLeastOnce.queue && out.seqSem == c.atLeastOnce.seqSem && forall(k, wire_len(k) == old(wire_len(k))) && forall(k, st_has(c.persistence, k) == old(st_has(c.persistence, k))) && len(c.atLeastOnce.queue) == old(len(c.atLeastOnce.queue))
+//@ ensures[C09,C14] (err != nil && denied(err)) ==> exchange == nil && forall(k, wire_len(k) == old(wire_len(k))) && forall(k, st_has(c.persistence, k) == old(st_has(c.persistence, k))) && len(c.atLeastOnce.queue) == old(len(c.atLeastOnce.queue))
+//@ ensures[C09] len(topic) == 0 || len(topic) > 65535 || !utf8ok(arr(topic), off(topic), len(topic)) || hasnul(arr(topic), off(topic), len(topic)) || pubrem(len(topic), len(message), 1) > 268435455 ==> err != nil && denied(err)
+//@ ensures[C14,C17] err != nil ==> exchange == nil && len(c.atLeastOnce.queue) == old(len(c.atLeastOnce.queue)) && forall(k, wire_len(k) == old(wire_len(k)))
+
+//@ func mqtt.(*Client).PublishExactlyOnce -> exchange, err
+//@ requires c.persistence != nil && c.exactlyOnce.queue != nil && !closed(c.exactlyOnce.queue) && c.exactlyOnce.seqSem != nil && cap(c.exactlyOnce.seqSem) == 1 && (closed(c.exactlyOnce.seqSem) ==> len(c.exactlyOnce.seqSem) == 0)
+//@ requires c.writeSem != nil && cap(c.writeSem) == 1 && (closed(c.writeSem) ==> len(c.writeSem) == 0)
+//@ at[C05,C09] call publishPacket#1: assert head == 52 && packetID == 49152
+//@ at[C09,C14] call submitPersisted#1: assert out.queue == c.exactlyOnce.queue && out.seqSem == c.exactlyOnce.seqSem && forall(k, wire_len(k) == old(wire_len(k))) && forall(k, st_has(c.persistence, k) == old(st_has(c.persistence, k))) && len(c.exactlyOnce.queue) == old(len(c.exactlyOnce.queue))
+//@ ensures[C09,C14] (err != nil && denied(err)) ==> exchange == nil && forall(k, wire_len(k) == old(wire_len(k))) && forall(k, st_has(c.persistence, k) == old(st_has(c.persistence, k))) && len(c.exactlyOnce.queue) == old(len(c.exactlyOnce.queue))
+//@ ensures[C09] len(topic) == 0 || len(topic) > 65535 || !utf8ok(arr(topic), off(topic), len(topic)) || hasnul(arr(topic), off(topic), len(topic)) || pubrem(len(topic), len(message), 1) > 268435455 ==> err != nil && denied(err)
+//@ ensures[C14,C17] err != nil ==> exchange == nil && len(c.exactlyOnce.queue) == old(len(c.exactlyOnce.queue)) && forall(k, wire_len(k) == old(wire_len(k)))
+
+//@ func mqtt.(*Client).PublishExactlyOnceRetained -> exchange, err
+//@ requires c.persistence != nil && c.exactlyOnce.queue != nil && !closed(c.exactlyOnce.queue) && c.exactlyOnce.seqSem != nil && cap(c.exactlyOnce.seqSem) == 1 && (closed(c.exactlyOnce.seqSem) ==> len(c.exactlyOnce.seqSem) == 0)
+//@ requires c.writeSem != nil && cap(c.writeSem) == 1 && (closed(c.writeSem) ==> len(c.writeSem) == 0)
+//@ at[C05,C09] call publishPacket#1: assert head == 53 && packetID == 49152
+//@ at[C09,C14] call submitPersisted#1: assert out.queue == c.exactlyOnce.queue && out.seqSem == c.exactlyOnce.seqSem && forall(k, wire_len(k) == old(wire_len(k))) && forall(k, st_has(c.persistence, k) == old(st_has(c.persistence, k))) && len(c.exactlyOnce.queue) == old(len(c.exactlyOnce.queue))
+//@ ensures[C09,C14] (err != nil && denied(err)) ==> exchange == nil && forall(k, wire_len(k) == old(wire_len(k))) && forall(k, st_has(c.persistence, k) == old(st_has(c.persistence, k))) && len(c.exactlyOnce.queue) == old(len(c.exactlyOnce.queue))
+//@ ensures[C09] len(topic) == 0 || len(topic) > 65535 || !utf8ok(arr(topic), off(topic), len(topic)) || hasnul(arr(topic), off(topic), len(topic)) || pubrem(len(topic), len(message), 1) > 268435455 ==> err != nil && denied(err)
+//@ ensures[C14,C17] err != nil ==> exchange == nil && len(c.exactlyOnce.queue) == old(len(c.exactlyOnce.queue)) && forall(k, wire_len(k) == old(wire_len(k)))
